@@ -1,6 +1,1284 @@
-//! C19 — not built yet.
-use crate::ev::Tier;
-pub fn main(_tier: Tier, _replay: Option<serde_json::Value>) -> i32 {
-    eprintln!("C19: check not built yet");
-    2
+//! C19 — FFT and polynomial kernels equal their mathematical definitions.
+//!
+//! Every case runs on the real (crate-private) kernels through
+//! `dusk_plonk::verif::kernels` and is compared with the naive reference M4.
+//! Sections: `fft` (sizes x lengths x vectors x real pools of 1..17 threads),
+//! `domain`, `poly`, `batch_inv`, `closed` (vanishing / Lagrange / barycentric).
+
+use std::collections::{BTreeMap, BTreeSet};
+use std::panic::{catch_unwind, AssertUnwindSafe};
+
+use dusk_plonk::verif::kernels as k;
+use serde_json::{json, Value};
+
+use crate::ev::{Run, Tier};
+use crate::fe::*;
+use crate::m4;
+use crate::par::{panic_msg, par_map};
+
+pub const THREADS: [usize; 8] = [1, 2, 3, 4, 5, 8, 16, 17];
+const FULL_DFT_MAX: usize = 1 << 10;
+const PAR_MIN_LEN: usize = 1 << 12;
+const PAR_MIN_THREADS: usize = 4;
+
+// ---------------------------------------------------------------------------
+// accumulation
+// ---------------------------------------------------------------------------
+
+pub struct Fail {
+    pub sig: String,
+    pub what: String,
+    pub case: Value,
+}
+
+#[derive(Default)]
+pub struct Acc {
+    pub cases: u64,
+    pub shapes: BTreeSet<String>,
+    pub hashes: Vec<u64>,
+    pub fails: Vec<Fail>,
+    pub outcomes: BTreeMap<String, u64>,
+    pub kernels: BTreeMap<String, u64>,
+    pub machinery: Vec<String>,
+    pub samples: Vec<Value>,
+}
+
+impl Acc {
+    /// One case executed on the real kernel `kernel` in configuration `shape`.
+    pub fn case(&mut self, kernel: &str, shape: &str, nontrivial: Option<u64>) {
+        self.cases += 1;
+        *self.kernels.entry(kernel.to_string()).or_insert(0) += 1;
+        self.shapes.insert(format!("{}/{}", kernel, shape));
+        if let Some(h) = nontrivial {
+            self.hashes.push(h);
+        }
+    }
+    pub fn fail(&mut self, section: &str, sig: &str, what: String, mut case: Value) {
+        *self.outcomes.entry(format!("violating-cases:{}", sig)).or_insert(0) += 1;
+        if self.fails.iter().any(|f| f.sig == sig) {
+            return;
+        }
+        case["section"] = json!(section);
+        self.fails.push(Fail { sig: sig.to_string(), what, case });
+    }
+    pub fn outcome(&mut self, k: &str) {
+        *self.outcomes.entry(k.to_string()).or_insert(0) += 1;
+    }
+    pub fn merge(&mut self, o: Acc) {
+        self.cases += o.cases;
+        self.shapes.extend(o.shapes);
+        self.hashes.extend(o.hashes);
+        for f in o.fails {
+            if !self.fails.iter().any(|g| g.sig == f.sig) {
+                self.fails.push(f);
+            }
+        }
+        for (k, v) in o.outcomes {
+            *self.outcomes.entry(k).or_insert(0) += v;
+        }
+        for (k, v) in o.kernels {
+            *self.kernels.entry(k).or_insert(0) += v;
+        }
+        self.machinery.extend(o.machinery);
+        for s in o.samples {
+            if self.samples.len() < 12 {
+                self.samples.push(s);
+            }
+        }
+    }
+}
+
+fn guard<T>(f: impl FnOnce() -> T) -> Result<T, String> {
+    catch_unwind(AssertUnwindSafe(f)).map_err(panic_msg)
+}
+
+fn hexv(v: &[Fe]) -> Value {
+    if v.len() <= 12 {
+        json!(v.iter().map(hex).collect::<Vec<_>>())
+    } else {
+        json!({"len": v.len(), "head": v[..6].iter().map(hex).collect::<Vec<_>>(), "fnv": format!("{:016x}", hash_vec(0, v))})
+    }
+}
+
+fn hash_vec(seed: u64, v: &[Fe]) -> u64 {
+    let mut h = fnv(&seed.to_le_bytes());
+    for x in v {
+        h = fnv_fe(h, x);
+    }
+    h
+}
+
+fn nonconstant(v: &[Fe]) -> bool {
+    v.iter().any(|x| *x != v[0])
+}
+
+fn first_diff(a: &[Fe], b: &[Fe]) -> Value {
+    if a.len() != b.len() {
+        return json!({"len_real": a.len(), "len_expected": b.len()});
+    }
+    for i in 0..a.len() {
+        if a[i] != b[i] {
+            return json!({"index": i, "real": hex(&a[i]), "expected": hex(&b[i])});
+        }
+    }
+    json!(null)
+}
+
+// ---------------------------------------------------------------------------
+// section: fft
+// ---------------------------------------------------------------------------
+
+#[derive(Clone, Copy, PartialEq, Eq, Debug)]
+pub enum Kind {
+    Fft,
+    Ifft,
+    CosetFft,
+    CosetIfft,
+}
+pub const KINDS: [Kind; 4] = [Kind::Fft, Kind::Ifft, Kind::CosetFft, Kind::CosetIfft];
+
+impl Kind {
+    pub fn name(self) -> &'static str {
+        match self {
+            Kind::Fft => "fft",
+            Kind::Ifft => "ifft",
+            Kind::CosetFft => "coset_fft",
+            Kind::CosetIfft => "coset_ifft",
+        }
+    }
+    pub fn inverse(self) -> Kind {
+        match self {
+            Kind::Fft => Kind::Ifft,
+            Kind::Ifft => Kind::Fft,
+            Kind::CosetFft => Kind::CosetIfft,
+            Kind::CosetIfft => Kind::CosetFft,
+        }
+    }
+    /// The real kernel on the domain built for `n` coefficients.
+    pub fn call(self, n: usize, v: &[Fe]) -> Result<Vec<Fe>, String> {
+        let r = match self {
+            Kind::Fft => k::fft(n, v),
+            Kind::Ifft => k::ifft(n, v),
+            Kind::CosetFft => k::coset_fft(n, v),
+            Kind::CosetIfft => k::coset_ifft(n, v),
+        };
+        r.map_err(|e| format!("{:?}", e))
+    }
+    /// The definition over the FULL input vector (O(n·len)).
+    pub fn definition(self, v: &[Fe], n: usize) -> Vec<Fe> {
+        match self {
+            Kind::Fft => m4::dft(v, n),
+            Kind::Ifft => m4::idft(v, n),
+            Kind::CosetFft => m4::coset_dft(v, n),
+            Kind::CosetIfft => m4::coset_idft(v, n),
+        }
+    }
+    pub fn definition_at(self, v: &[Fe], n: usize, idx: &[usize]) -> Vec<Fe> {
+        match self {
+            Kind::Fft => m4::dft_at(v, n, idx),
+            Kind::Ifft => m4::idft_at(v, n, idx),
+            Kind::CosetFft => m4::coset_dft_at(v, n, idx),
+            Kind::CosetIfft => m4::coset_idft_at(v, n, idx),
+        }
+    }
+    /// Second route: own recursive radix-2 transform.
+    pub fn fast(self, v: &[Fe], n: usize) -> Vec<Fe> {
+        match self {
+            Kind::Fft => m4::fast_dft(v, n),
+            Kind::Ifft => m4::fast_idft(v, n),
+            Kind::CosetFft => m4::fast_coset_dft(v, n),
+            Kind::CosetIfft => m4::fast_coset_idft(v, n),
+        }
+    }
+}
+
+pub fn lengths(n: usize) -> Vec<usize> {
+    let mut s = BTreeSet::new();
+    for l in [0, 1, n / 2, n.saturating_sub(1), n, n + 1, 2 * n] {
+        s.insert(l);
+    }
+    s.into_iter().collect()
+}
+
+/// The vector family for one input length (deduplicated by content).
+pub fn vectors(len: usize, stream: u64) -> Vec<(&'static str, Vec<Fe>)> {
+    if len == 0 {
+        return vec![("empty", vec![])];
+    }
+    let mut rho = Rho::new(seed(), 1900 + stream);
+    let rv: Vec<Fe> = (0..len).map(|_| rho.next_fe()).collect();
+    let unit = |i: usize| {
+        let mut v = vec![zero(); len];
+        v[i] = one();
+        v
+    };
+    let mut out: Vec<(&'static str, Vec<Fe>)> = vec![("zeros", vec![zero(); len]), ("e_0", unit(0))];
+    if len >= 2 {
+        out.push(("e_1", unit(1)));
+    }
+    out.push(("e_last", unit(len - 1)));
+    out.push(("ones", vec![one(); len]));
+    let mut tz = rv.clone();
+    for x in tz.iter_mut().skip((len + 1) / 2) {
+        *x = zero();
+    }
+    out.push(("trailing_zeros", tz));
+    out.push(("rho", rv));
+    let mut dedup: Vec<(&'static str, Vec<Fe>)> = vec![];
+    for (nm, v) in out {
+        if !dedup.iter().any(|(_, w)| *w == v) {
+            dedup.push((nm, v));
+        }
+    }
+    dedup
+}
+
+pub struct FftCase {
+    pub n: usize,
+    pub kind: Kind,
+    pub len: usize,
+    pub vname: &'static str,
+    pub input: Vec<Fe>,
+}
+
+pub struct FftRef {
+    /// definition over the full input vector
+    pub expect: Vec<Fe>,
+    /// definition over the input cut to the domain size (only for len > n)
+    pub trunc: Option<Vec<Fe>>,
+    pub selfcheck: Result<(), String>,
+}
+
+/// 64 spread indices incl. 0, 1, n/2, n-1.
+pub fn spot_indices(n: usize) -> Vec<usize> {
+    let mut s = BTreeSet::new();
+    for i in [0, 1, n / 2, n - 1] {
+        s.insert(i % n);
+    }
+    let mut kk = 0usize;
+    while s.len() < 64.min(n) {
+        s.insert((kk * (n / 60).max(1) + kk * 7 + 3) % n);
+        kk += 1;
+    }
+    s.into_iter().collect()
+}
+
+pub fn reference(c: &FftCase) -> FftRef {
+    let n = c.n;
+    if n <= FULL_DFT_MAX {
+        let expect = c.kind.definition(&c.input, n);
+        let trunc = if c.len > n { Some(c.kind.definition(&c.input[..n], n)) } else { None };
+        // the recursive route must agree with the definition on every small case
+        let fast = c.kind.fast(&c.input, n);
+        let selfcheck = if fast == expect { Ok(()) } else { Err("M4 recursive route differs from the M4 definition".to_string()) };
+        FftRef { expect, trunc, selfcheck }
+    } else {
+        let expect = c.kind.fast(&c.input, n);
+        let idx = spot_indices(n);
+        let at = c.kind.definition_at(&c.input, n, &idx);
+        let mut selfcheck = Ok(());
+        for (j, i) in idx.iter().enumerate() {
+            if at[j] != expect[*i] {
+                selfcheck = Err(format!("M4 recursive route differs from the M4 definition at index {}", i));
+                break;
+            }
+        }
+        let trunc = if c.len > n { Some(c.kind.fast(&c.input[..n], n)) } else { None };
+        FftRef { expect, trunc, selfcheck }
+    }
+}
+
+fn size_class(n: usize) -> &'static str {
+    if n >= PAR_MIN_LEN {
+        "n>=2^12"
+    } else {
+        "n<2^12"
+    }
+}
+fn thread_class(t: usize) -> &'static str {
+    if t >= PAR_MIN_THREADS {
+        "threads>=4"
+    } else {
+        "threads<4"
+    }
+}
+
+pub struct FftStats {
+    pub big_par_runs: u64,
+    pub full_definition_big: Vec<usize>,
+    pub sizes: Vec<usize>,
+    pub threads: Vec<usize>,
+}
+
+pub fn section_fft(tier: Tier, acc: &mut Acc) -> FftStats {
+    let sizes: Vec<usize> = match tier {
+        Tier::Quick => (0..=8).chain([12, 13]).map(|k| 1usize << k).collect(),
+        Tier::Thorough => (0..=14).map(|k| 1usize << k).collect(),
+    };
+    // sizes above FULL_DFT_MAX whose rho vector is additionally compared with
+    // the O(n^2) definition at EVERY index
+    let full_big: Vec<usize> = match tier {
+        Tier::Quick => vec![1 << 12],
+        Tier::Thorough => vec![1 << 11, 1 << 12, 1 << 13, 1 << 14],
+    };
+    // quick: both sides of the >= 4 threads switch plus odd / oversubscribed counts; thorough: every count 1..=17
+    let threads: Vec<usize> = match tier {
+        Tier::Quick => THREADS.to_vec(),
+        Tier::Thorough => (1..=17).collect(),
+    };
+    let pools: Vec<(usize, rayon::ThreadPool)> =
+        threads.iter().map(|t| (*t, rayon::ThreadPoolBuilder::new().num_threads(*t).build().expect("pool"))).collect();
+    let mut stats = FftStats { big_par_runs: 0, full_definition_big: vec![], sizes: sizes.clone(), threads: threads.clone() };
+
+    let t0 = std::time::Instant::now();
+    for &n in &sizes {
+        let log_n = n.trailing_zeros();
+        if std::env::var("VERIF_TRACE").is_ok() {
+            eprintln!("[C19] fft n=2^{} starts at {:.1}s", log_n, t0.elapsed().as_secs_f64());
+        }
+        for kind in KINDS {
+            let mut cases = vec![];
+            for len in lengths(n) {
+                for (vname, input) in vectors(len, (log_n as u64) * 8 + len as u64 % 7) {
+                    // quick tier: three vector families on the big sizes
+                    if tier == Tier::Quick && n > FULL_DFT_MAX && !["empty", "e_last", "trailing_zeros", "rho"].contains(&vname) {
+                        continue;
+                    }
+                    cases.push(FftCase { n, kind, len, vname, input });
+                }
+            }
+            let refs = par_map(&cases, reference);
+            // full O(n^2) definition for the rho vector of big sizes, split over the workers
+            if n > FULL_DFT_MAX && full_big.contains(&n) {
+                if let Some((ci, c)) = cases.iter().enumerate().find(|(_, c)| c.vname == "rho" && c.len == n) {
+                    if let Ok(r) = &refs[ci] {
+                        let chunks: Vec<Vec<usize>> = (0..n).collect::<Vec<_>>().chunks(n / 64).map(|c| c.to_vec()).collect();
+                        let res = par_map(&chunks, |idx| {
+                            let at = kind.definition_at(&c.input, n, idx);
+                            idx.iter().zip(at).all(|(i, v)| r.expect[*i] == v)
+                        });
+                        if res.iter().all(|x| matches!(x, Ok(true))) {
+                            if !stats.full_definition_big.contains(&n) {
+                                stats.full_definition_big.push(n);
+                            }
+                            acc.outcome("m4:full-definition-confirms-recursive-route(big)");
+                        } else {
+                            acc.machinery.push(format!("M4 full definition differs from recursive route, n={} {}", n, kind.name()));
+                        }
+                    }
+                }
+            }
+            for (c, r) in cases.iter().zip(refs) {
+                let r = match r {
+                    Ok(r) => r,
+                    Err(p) => {
+                        acc.machinery.push(format!("reference panicked: {} n={} len={} {}: {}", kind.name(), n, c.len, c.vname, p));
+                        continue;
+                    }
+                };
+                if let Err(e) = &r.selfcheck {
+                    acc.machinery.push(format!("{} ({} n={} len={} {})", e, kind.name(), n, c.len, c.vname));
+                    continue;
+                }
+                let padded: Vec<Fe> = if c.len <= n {
+                    let mut p = c.input.clone();
+                    p.resize(n, zero());
+                    p
+                } else {
+                    vec![]
+                };
+                let shape = format!("n=2^{}/len={}", log_n, len_class(c.len, n));
+                let mut first_out: Option<Vec<Fe>> = None;
+                let case_hash = fnv(format!("{}|{}|{}|{}", kind.name(), n, c.len, c.vname).as_bytes());
+                for (t, pool) in &pools {
+                    let (seen_threads, out, back) = pool.install(|| {
+                        let st = rayon::current_num_threads();
+                        let out = guard(|| kind.call(n, &c.input));
+                        let back = match &out {
+                            Ok(Ok(o)) if c.len <= n => Some(guard(|| kind.inverse().call(n, o))),
+                            _ => None,
+                        };
+                        (st, out, back)
+                    });
+                    if seen_threads != *t {
+                        acc.machinery.push(format!("pool of {} threads reports {}", t, seen_threads));
+                    }
+                    if n >= PAR_MIN_LEN && seen_threads >= PAR_MIN_THREADS {
+                        stats.big_par_runs += 1;
+                    }
+                    let mk_desc = || json!({"kernel": kind.name(), "n": n, "len": c.len, "vector": c.vname, "threads": t, "input": hexv(&c.input)});
+                    let h = case_hash ^ (*t as u64).wrapping_mul(0x9E3779B97F4A7C15);
+                    let out = match out {
+                        Err(p) => {
+                            acc.case(kind.name(), &shape, None);
+                            acc.fail("fft", &format!("{}/panic/{}", kind.name(), len_rel(c.len, n)), format!("{} panicked: {}", kind.name(), p), mk_desc());
+                            continue;
+                        }
+                        Ok(Err(e)) => {
+                            acc.case(kind.name(), &shape, None);
+                            acc.fail("fft", &format!("{}/error/{}", kind.name(), len_rel(c.len, n)), format!("{} returned Err({})", kind.name(), e), mk_desc());
+                            continue;
+                        }
+                        Ok(Ok(o)) => o,
+                    };
+                    acc.case(kind.name(), &shape, if nonconstant(&out) { Some(h) } else { None });
+                    if out == r.expect {
+                        acc.outcome(&format!("{}:equals-definition", kind.name()));
+                    } else if c.len > n && matches!(kind, Kind::Ifft | Kind::CosetIfft) {
+                        // Interpolation on a subgroup of n points is defined for
+                        // n values; a longer evaluation vector is not "a vector
+                        // on that domain", so the statement does not cover it
+                        // (informational; thread-independence is still checked).
+                        acc.outcome(&format!("{}:longer-than-domain(outside the statement)", kind.name()));
+                    } else if c.len > n && Some(&out) == r.trunc.as_ref() {
+                        let mut d = mk_desc();
+                        d["first_difference"] = first_diff(&out, &r.expect);
+                        acc.fail(
+                            "fft",
+                            &format!("{}/longer-than-domain/truncated", kind.name()),
+                            format!(
+                                "{} of a vector longer than the domain (n={}, len={}, {}) returns the transform of the first n entries; the definition over the full vector differs",
+                                kind.name(), n, c.len, c.vname
+                            ),
+                            d,
+                        );
+                    } else {
+                        let mut d = mk_desc();
+                        d["first_difference"] = first_diff(&out, &r.expect);
+                        acc.fail(
+                            "fft",
+                            &format!("{}/wrong-output/{}/{}/{}", kind.name(), len_rel(c.len, n), size_class(n), thread_class(*t)),
+                            format!("{} differs from the definition (n={}, len={}, {}, {} threads)", kind.name(), n, c.len, c.vname, t),
+                            d,
+                        );
+                    }
+                    match &first_out {
+                        None => first_out = Some(out.clone()),
+                        Some(f) => {
+                            if *f != out {
+                                let mut d = mk_desc();
+                                d["first_difference_vs_1_thread"] = first_diff(&out, f);
+                                acc.fail(
+                                    "fft",
+                                    &format!("{}/thread-count-dependent/{}", kind.name(), size_class(n)),
+                                    format!("{} output with {} threads differs from 1 thread (n={}, len={}, {})", kind.name(), t, n, c.len, c.vname),
+                                    d,
+                                );
+                            }
+                        }
+                    }
+                    if let Some(b) = back {
+                        acc.case(&format!("{}-roundtrip", kind.name()), &shape, None);
+                        match b {
+                            Ok(Ok(b)) if b == padded => acc.outcome(&format!("{}:inverse-after-forward-is-identity", kind.name())),
+                            Ok(Ok(b)) => {
+                                let mut d = mk_desc();
+                                d["first_difference"] = first_diff(&b, &padded);
+                                acc.fail(
+                                    "fft",
+                                    &format!("{}/roundtrip/{}/{}", kind.name(), size_class(n), thread_class(*t)),
+                                    format!("{}∘{} is not the identity (n={}, len={}, {}, {} threads)", kind.inverse().name(), kind.name(), n, c.len, c.vname, t),
+                                    d,
+                                );
+                            }
+                            Ok(Err(e)) => acc.fail("fft", &format!("{}/roundtrip/error", kind.name()), format!("inverse returned Err({})", e), mk_desc()),
+                            Err(p) => acc.fail("fft", &format!("{}/roundtrip/panic", kind.name()), format!("inverse panicked: {}", p), mk_desc()),
+                        }
+                    }
+                }
+                if acc.samples.len() < 4 && c.vname == "rho" && c.len == n && n >= 4 {
+                    acc.samples.push(json!({"kernel": kind.name(), "n": n, "len": c.len, "vector": c.vname, "threads": threads.clone(), "output_fnv": format!("{:016x}", hash_vec(0, &r.expect))}));
+                }
+            }
+        }
+    }
+    stats
+}
+
+fn len_rel(len: usize, n: usize) -> &'static str {
+    if len > n {
+        "longer-than-domain"
+    } else if len == n {
+        "len=n"
+    } else {
+        "shorter-than-domain"
+    }
+}
+
+fn len_class(len: usize, n: usize) -> String {
+    if len == 0 {
+        "0".into()
+    } else if len == 2 * n {
+        "2n".into()
+    } else if len == n + 1 {
+        "n+1".into()
+    } else if len == n {
+        "n".into()
+    } else if len + 1 == n {
+        "n-1".into()
+    } else if len == n / 2 {
+        "n/2".into()
+    } else {
+        format!("{}", len)
+    }
+}
+
+// ---------------------------------------------------------------------------
+// section: domain construction and elements
+// ---------------------------------------------------------------------------
+
+pub fn section_domain(acc: &mut Acc) {
+    let mut ms: Vec<usize> = (0..=33).collect();
+    ms.extend([63, 64, 65, 255, 256, 257, 1000, 1024, 1025, (1 << 14) - 1, 1 << 14, (1 << 14) + 1]);
+    for m in ms {
+        let size = m.max(1).next_power_of_two();
+        let w = m4::root_of_unity(size);
+        // primitivity of the M4 root (self check)
+        if m4::pow_u64(w, size as u64) != one() || (size > 1 && m4::pow_u64(w, size as u64 / 2) != neg1()) {
+            acc.machinery.push(format!("M4 root of unity for size {} is not primitive", size));
+        }
+        let desc = json!({"kernel": "domain", "num_coeffs": m});
+        match guard(|| k::domain(m)) {
+            Ok(Ok((s, g))) => {
+                acc.case("domain", &format!("size=2^{}", size.trailing_zeros()), Some(fnv(format!("domain|{}", m).as_bytes())));
+                if s != size || g != w {
+                    acc.fail("domain", "domain/wrong-size-or-generator", format!("domain({}) = ({}, {}), expected ({}, {})", m, s, hex(&g), size, hex(&w)), desc.clone());
+                }
+            }
+            Ok(Err(e)) => {
+                acc.case("domain", "err", None);
+                acc.fail("domain", "domain/error", format!("domain({}) returned Err({:?})", m, e), desc.clone());
+            }
+            Err(p) => {
+                acc.case("domain", "panic", None);
+                acc.fail("domain", "domain/panic", format!("domain({}) panicked: {}", m, p), desc.clone());
+            }
+        }
+        if size <= 1 << 14 {
+            match guard(|| k::elements(m)) {
+                Ok(Ok(e)) => {
+                    acc.case("elements", &format!("size=2^{}", size.trailing_zeros()), Some(fnv(format!("elements|{}", m).as_bytes())));
+                    let exp = m4::domain_elements(size);
+                    if e != exp {
+                        acc.fail("domain", "elements/wrong", format!("elements({}) differ from ω^i", m), json!({"kernel": "elements", "num_coeffs": m, "first_difference": first_diff(&e, &exp)}));
+                    }
+                }
+                Ok(Err(e)) => acc.fail("domain", "elements/error", format!("elements({}) returned Err({:?})", m, e), desc.clone()),
+                Err(p) => acc.fail("domain", "elements/panic", format!("elements({}) panicked: {}", m, p), desc.clone()),
+            }
+        }
+    }
+}
+
+// ---------------------------------------------------------------------------
+// section: polynomial arithmetic
+// ---------------------------------------------------------------------------
+
+/// All coefficient vectors of length <= 3 over {0, 1, -1, 2}: 85.
+pub fn small_polys() -> Vec<Vec<Fe>> {
+    let alpha = [zero(), one(), neg1(), fe(2)];
+    let mut out = vec![vec![]];
+    for len in 1..=3usize {
+        for t in 0..4usize.pow(len as u32) {
+            let mut idx = t;
+            let mut v = vec![];
+            for _ in 0..len {
+                v.push(alpha[idx % 4]);
+                idx /= 4;
+            }
+            out.push(v);
+        }
+    }
+    out
+}
+
+fn rho_scalar() -> Fe {
+    Rho::new(seed(), 1919).next_fe()
+}
+
+pub fn eval_points() -> Vec<(&'static str, Fe)> {
+    vec![("0", zero()), ("1", one()), ("-1", neg1()), ("2", fe(2)), ("rho", rho_scalar()), ("omega_8", m4::root_of_unity(8))]
+}
+
+pub fn scalars() -> Vec<(&'static str, Fe)> {
+    vec![("0", zero()), ("1", one()), ("-1", neg1()), ("rho", rho_scalar())]
+}
+
+fn check_poly(acc: &mut Acc, op: &str, shape: &str, real: Result<Vec<Fe>, String>, expect: &[Fe], desc: Value) {
+    let h = fnv(format!("{}|{}", op, desc).as_bytes());
+    match real {
+        Err(p) => {
+            acc.case(op, shape, None);
+            acc.fail("poly", &format!("{}/panic", op), format!("{} panicked: {}", op, p), desc);
+        }
+        Ok(r) => {
+            let nt = !m4::trim(expect).is_empty();
+            acc.case(op, shape, if nt { Some(h) } else { None });
+            if r.last().map_or(false, |c| *c == zero()) {
+                acc.outcome(&format!("info:{}:result-has-trailing-zero-coefficients", op));
+            }
+            if !m4::poly_eq(&r, expect) {
+                let mut d = desc;
+                d["real"] = hexv(&r);
+                d["expected"] = hexv(&m4::trim(expect));
+                acc.fail("poly", &format!("{}/wrong-result", op), format!("{} differs from schoolbook arithmetic", op), d);
+            }
+        }
+    }
+}
+
+fn check_scalar(acc: &mut Acc, op: &str, shape: &str, real: Result<Fe, String>, expect: Fe, desc: Value) {
+    let h = fnv(format!("{}|{}", op, desc).as_bytes());
+    match real {
+        Err(p) => {
+            acc.case(op, shape, None);
+            acc.fail("poly", &format!("{}/panic", op), format!("{} panicked: {}", op, p), desc);
+        }
+        Ok(r) => {
+            acc.case(op, shape, if expect != zero() { Some(h) } else { None });
+            if r != expect {
+                let mut d = desc;
+                d["real"] = json!(hex(&r));
+                d["expected"] = json!(hex(&expect));
+                acc.fail("poly", &format!("{}/wrong-result", op), format!("{} differs from the definition", op), d);
+            }
+        }
+    }
+}
+
+fn unary_checks(acc: &mut Acc, a: &[Fe], shape: &str) {
+    let da = hexv(a);
+    check_poly(acc, "poly_neg", shape, guard(|| k::poly_neg(a)), &m4::poly_neg(a), json!({"a": da}));
+    // degree: highest index with a non-zero coefficient, 0 for the zero polynomial
+    let deg = m4::trim(a).len().saturating_sub(1);
+    match guard(|| k::poly_degree(a)) {
+        Ok(d) => {
+            acc.case("poly_degree", shape, Some(fnv(format!("deg|{}", da).as_bytes())));
+            if d != deg {
+                acc.fail("poly", "poly_degree/wrong-result", format!("degree {} expected {}", d, deg), json!({"a": da}));
+            }
+        }
+        Err(p) => acc.fail("poly", "poly_degree/panic", p, json!({"a": da})),
+    }
+    for (sn, s) in scalars() {
+        let d = json!({"a": da, "s": sn});
+        check_poly(acc, "poly_scale", shape, guard(|| k::poly_scale(a, &s)), &m4::poly_scale(a, s), d.clone());
+        check_poly(acc, "poly_add_scalar", shape, guard(|| k::poly_add_scalar(a, &s)), &m4::poly_add_scalar(a, s), d.clone());
+        check_poly(acc, "poly_sub_scalar", shape, guard(|| k::poly_sub_scalar(a, &s)), &m4::poly_add_scalar(a, -s), d);
+    }
+    for (zn, z) in eval_points() {
+        let d = json!({"a": da, "point": zn});
+        let v = m4::horner(a, z);
+        check_scalar(acc, "poly_eval", shape, guard(|| k::poly_eval(a, &z)), v, d.clone());
+        // division by (X - z): quotient·(X − z) + a(z) == a, and equal to the M4 quotient
+        let (q, r) = m4::div_linear(a, z);
+        if r != v {
+            acc.machinery.push("M4 remainder differs from Horner value".into());
+        }
+        match guard(|| k::poly_ruffini(a, z)) {
+            Err(p) => {
+                acc.case("poly_ruffini", shape, None);
+                acc.fail("poly", "poly_ruffini/panic", format!("ruffini panicked: {}", p), d);
+            }
+            Ok(rq) => {
+                acc.case("poly_ruffini", shape, if !m4::trim(&q).is_empty() { Some(fnv(format!("ruf|{}", d).as_bytes())) } else { None });
+                let back = m4::poly_add(&m4::poly_mul(&rq, &[-z, one()]), &[v]);
+                if !m4::poly_eq(&back, a) || !m4::poly_eq(&rq, &q) {
+                    let mut dd = d;
+                    dd["real_quotient"] = hexv(&rq);
+                    dd["expected_quotient"] = hexv(&m4::trim(&q));
+                    dd["remainder"] = json!(hex(&v));
+                    let zc = if z == zero() { "z=0" } else { "z!=0" };
+                    acc.fail("poly", &format!("poly_ruffini/wrong-quotient/{}", zc), "quotient·(X−z) + a(z) != a".into(), dd);
+                }
+            }
+        }
+    }
+}
+
+fn binary_checks(acc: &mut Acc, a: &[Fe], b: &[Fe], shape: &str) {
+    let d = json!({"a": hexv(a), "b": hexv(b)});
+    let sum = m4::poly_add(a, b);
+    let dif = m4::poly_sub(a, b);
+    check_poly(acc, "poly_add", shape, guard(|| k::poly_add(a, b)), &sum, d.clone());
+    check_poly(acc, "poly_add_assign", shape, guard(|| k::poly_add_assign(a, b)), &sum, d.clone());
+    check_poly(acc, "poly_sub", shape, guard(|| k::poly_sub(a, b)), &dif, d.clone());
+    check_poly(acc, "poly_sub_assign", shape, guard(|| k::poly_sub_assign(a, b)), &dif, d.clone());
+    check_poly(acc, "poly_mul", shape, guard(|| k::poly_mul(a, b)), &m4::poly_mul(&m4::trim(a), &m4::trim(b)), d.clone());
+    for (sn, s) in scalars() {
+        let mut ds = d.clone();
+        ds["s"] = json!(sn);
+        check_poly(acc, "poly_add_assign_scaled", shape, guard(|| k::poly_add_assign_scaled(a, s, b)), &m4::poly_add(a, &m4::poly_scale(b, s)), ds);
+    }
+}
+
+pub fn section_poly(acc: &mut Acc) {
+    let polys = small_polys();
+    assert_eq!(polys.len(), 85);
+    let idx: Vec<usize> = (0..polys.len()).collect();
+    let parts = par_map(&idx, |&i| {
+        let mut acc = Acc::default();
+        let a = &polys[i];
+        unary_checks(&mut acc, a, &format!("len={}", a.len()));
+        for b in &polys {
+            binary_checks(&mut acc, a, b, &format!("len={}xlen={}", a.len(), b.len()));
+        }
+        acc
+    });
+    for p in parts {
+        match p {
+            Ok(a) => acc.merge(a),
+            Err(e) => acc.machinery.push(format!("poly worker panicked: {}", e)),
+        }
+    }
+    // long rho vectors, plus cancelling / degree-dropping companions
+    let mut longs: Vec<(String, Vec<Fe>)> = vec![];
+    for (j, len) in [17usize, 64, 257].iter().enumerate() {
+        let mut rho = Rho::new(seed(), 1950 + j as u64);
+        let v: Vec<Fe> = (0..*len).map(|_| rho.next_fe()).collect();
+        longs.push((format!("rho{}", len), v.clone()));
+        longs.push((format!("neg-rho{}", len), m4::poly_neg(&v)));
+        let mut w = v.clone();
+        w[len - 1] = w[len - 1] + one();
+        w[0] = zero();
+        longs.push((format!("rho{}-top+1", len), w));
+        let mut t = v.clone();
+        for x in t.iter_mut().skip(len / 2) {
+            *x = zero();
+        }
+        longs.push((format!("rho{}-trailing-zeros", len), t));
+    }
+    let li: Vec<usize> = (0..longs.len()).collect();
+    let parts = par_map(&li, |&i| {
+        let mut acc = Acc::default();
+        let (_, a) = &longs[i];
+        unary_checks(&mut acc, a, &format!("long-len={}", a.len()));
+        for (_, b) in &longs {
+            binary_checks(&mut acc, a, b, &format!("long-len={}xlen={}", a.len(), b.len()));
+        }
+        acc
+    });
+    for p in parts {
+        match p {
+            Ok(a) => acc.merge(a),
+            Err(e) => acc.machinery.push(format!("poly worker panicked: {}", e)),
+        }
+    }
+    // multiplication whose FFT domain crosses the 2^12 parallel threshold, in real pools
+    let mut rho = Rho::new(seed(), 1990);
+    let a: Vec<Fe> = (0..2048).map(|_| rho.next_fe()).collect();
+    let b: Vec<Fe> = (0..2049).map(|_| rho.next_fe()).collect();
+    let rows: Vec<usize> = (0..a.len()).collect();
+    // schoolbook product, rows distributed over the workers
+    let partial = par_map(&rows.chunks(128).map(|c| c.to_vec()).collect::<Vec<_>>(), |rs| {
+        let mut out = vec![zero(); a.len() + b.len() - 1];
+        for &i in rs {
+            for (j, y) in b.iter().enumerate() {
+                out[i + j] = out[i + j] + a[i] * *y;
+            }
+        }
+        out
+    });
+    let mut prod = vec![zero(); a.len() + b.len() - 1];
+    for p in partial {
+        match p {
+            Ok(p) => {
+                for (x, y) in prod.iter_mut().zip(p) {
+                    *x = *x + y;
+                }
+            }
+            Err(e) => acc.machinery.push(format!("schoolbook worker panicked: {}", e)),
+        }
+    }
+    for t in [1usize, 4, 8, 17] {
+        let pool = rayon::ThreadPoolBuilder::new().num_threads(t).build().expect("pool");
+        let r = pool.install(|| guard(|| k::poly_mul(&a, &b)));
+        check_poly(acc, "poly_mul", &format!("long-2048x2049/threads={}", t), r, &prod, json!({"a": "rho x2048 (stream 1990)", "b": "rho x2049", "threads": t}));
+    }
+}
+
+// ---------------------------------------------------------------------------
+// section: batch inversion
+// ---------------------------------------------------------------------------
+
+pub fn section_batch_inv(acc: &mut Acc) {
+    let rho = rho_scalar();
+    let alpha = [zero(), one(), neg1(), rho];
+    let names = ["0", "1", "-1", "rho"];
+    let mut vs: Vec<(Vec<Fe>, String)> = vec![(vec![], "[]".into())];
+    for len in 1..=4usize {
+        for t in 0..4usize.pow(len as u32) {
+            let mut idx = t;
+            let mut v = vec![];
+            let mut nm = vec![];
+            for _ in 0..len {
+                v.push(alpha[idx % 4]);
+                nm.push(names[idx % 4]);
+                idx /= 4;
+            }
+            vs.push((v, format!("[{}]", nm.join(","))));
+        }
+    }
+    assert_eq!(vs.len(), 341);
+    // long vectors: all non-zero, and zeros sprinkled in
+    let mut r = Rho::new(seed(), 1960);
+    let long: Vec<Fe> = (0..1000).map(|_| r.next_fe()).collect();
+    let mut holes = long.clone();
+    for i in (0..1000).step_by(7) {
+        holes[i] = zero();
+    }
+    vs.push((long, "rho x1000".into()));
+    vs.push((holes, "rho x1000 with every 7th entry zero".into()));
+    vs.push((vec![zero(); 33], "0 x33".into()));
+    for (v, nm) in vs {
+        let expect = m4::invert_each(&v);
+        let mut w = v.clone();
+        let r = guard(|| {
+            k::batch_inversion(&mut w);
+        });
+        let zeros = v.iter().filter(|x| **x == zero()).count();
+        let shape = format!("len={}/zeros={}", v.len().min(5), zeros.min(5));
+        let desc = json!({"kernel": "batch_inversion", "input": nm});
+        match r {
+            Err(p) => {
+                acc.case("batch_inversion", &shape, None);
+                acc.fail("batch_inv", "batch_inversion/panic", format!("batch_inversion panicked on {}: {}", nm, p), desc);
+            }
+            Ok(()) => {
+                let nt = v.iter().any(|x| *x != zero() && *x != one());
+                acc.case("batch_inversion", &shape, if nt { Some(fnv(nm.as_bytes())) } else { None });
+                if w != expect {
+                    let mut d = desc;
+                    d["first_difference"] = first_diff(&w, &expect);
+                    acc.fail("batch_inv", "batch_inversion/wrong-result", format!("batch_inversion({}) differs from per-element inversion", nm), d);
+                }
+            }
+        }
+    }
+}
+
+// ---------------------------------------------------------------------------
+// section: vanishing / Lagrange / barycentric closed forms
+// ---------------------------------------------------------------------------
+
+fn taus(n: usize) -> Vec<(String, Fe, bool)> {
+    let rho = rho_scalar();
+    let mut out: Vec<(String, Fe)> = vec![("0".into(), zero()), ("1".into(), one()), ("-1".into(), neg1()), ("2".into(), fe(2)), ("rho".into(), rho)];
+    let xs = m4::domain_elements(n);
+    if n <= 8 {
+        for (i, x) in xs.iter().enumerate() {
+            out.push((format!("omega^{}", i), *x));
+        }
+    } else {
+        out.push((format!("omega^{}", n / 2 + 1), xs[n / 2 + 1]));
+        out.push((format!("omega^{}", n - 1), xs[n - 1]));
+    }
+    // classify and dedup by value
+    let mut res: Vec<(String, Fe, bool)> = vec![];
+    for (nm, t) in out {
+        if res.iter().any(|(_, u, _)| *u == t) {
+            continue;
+        }
+        let on = xs.iter().any(|x| *x == t);
+        res.push((nm, t, on));
+    }
+    res
+}
+
+fn closed_for_size(n: usize) -> Acc {
+    let mut acc = Acc::default();
+    let log_n = n.trailing_zeros();
+    let xs = m4::domain_elements(n);
+    let mut rho = Rho::new(seed(), 1970 + log_n as u64);
+    let rv: Vec<Fe> = (0..n).map(|_| rho.next_fe()).collect();
+    for (tn, tau, on_domain) in taus(n) {
+        let place = if on_domain { "domain-point" } else { "outside-domain" };
+        let shape = format!("n=2^{}/{}", log_n, place);
+        let lag = m4::lagrange_all(n, tau);
+        // M4 self check: closed form == product definition
+        for i in 0..n {
+            if m4::lagrange_closed(n, i, tau) != lag[i] {
+                acc.machinery.push(format!("M4 closed-form L_{} differs from the product definition (n={}, tau={})", i, n, tn));
+            }
+        }
+        // --- lagrange_all
+        let desc = json!({"kernel": "lagrange_all", "n": n, "tau": tn, "tau_value": hex(&tau)});
+        match guard(|| k::lagrange_all(n, tau)) {
+            Ok(Ok(r)) => {
+                acc.case("lagrange_all", &shape, Some(fnv(desc.to_string().as_bytes())));
+                if r != lag {
+                    let mut d = desc.clone();
+                    d["first_difference"] = first_diff(&r, &lag);
+                    acc.fail("closed", &format!("lagrange_all/wrong-value/{}", place), format!("lagrange_all(n={}, tau={}) differs from the product definition", n, tn), d);
+                }
+            }
+            Ok(Err(e)) => acc.fail("closed", "lagrange_all/error", format!("{:?}", e), desc.clone()),
+            Err(p) => acc.fail("closed", &format!("lagrange_all/panic/{}", place), p, desc.clone()),
+        }
+        // --- vanishing_eval
+        let desc = json!({"kernel": "vanishing_eval", "n": n, "tau": tn});
+        match guard(|| k::vanishing_eval(n, &tau)) {
+            Ok(Ok(r)) => {
+                let e = m4::vanishing(n, tau);
+                acc.case("vanishing_eval", &shape, if e != zero() { Some(fnv(desc.to_string().as_bytes())) } else { None });
+                // Z_H by the product of (tau - omega^i) as well
+                let mut prod = one();
+                for x in &xs {
+                    prod = prod * (tau - *x);
+                }
+                if prod != e {
+                    acc.machinery.push(format!("M4 tau^n-1 differs from the product of (tau - omega^i), n={}", n));
+                }
+                if r != e {
+                    acc.fail("closed", "vanishing_eval/wrong-value", format!("vanishing_eval(n={}, tau={}) = {}, expected {}", n, tn, hex(&r), hex(&e)), desc.clone());
+                }
+            }
+            Ok(Err(e)) => acc.fail("closed", "vanishing_eval/error", format!("{:?}", e), desc.clone()),
+            Err(p) => acc.fail("closed", "vanishing_eval/panic", p, desc.clone()),
+        }
+        // --- barycentric
+        let mut evs: Vec<(String, Vec<Fe>)> = vec![("zeros".into(), vec![zero(); n]), ("ones".into(), vec![one(); n]), ("rho".into(), rv.clone())];
+        for i in [0usize, 1, n - 1] {
+            if i < n && !evs.iter().any(|(nm, _)| *nm == format!("e_{}", i)) {
+                let mut v = vec![zero(); n];
+                v[i] = one();
+                evs.push((format!("e_{}", i), v));
+            }
+        }
+        let mut sparse = rv.clone();
+        for (i, x) in sparse.iter_mut().enumerate() {
+            if i % 3 != 0 {
+                *x = zero();
+            }
+        }
+        evs.push(("sparse-rho".into(), sparse));
+        if n >= 2 {
+            evs.push(("short-rho(n/2)".into(), rv[..n / 2].to_vec()));
+            evs.push(("empty".into(), vec![]));
+        }
+        for (en, ev) in &evs {
+            let expect = m4::eval_from_evals(n, ev, tau);
+            // second definition: interpolate, then Horner
+            let mut padded = ev.clone();
+            padded.resize(n, zero());
+            if m4::horner(&m4::idft(&padded, n), tau) != expect {
+                acc.machinery.push(format!("M4 Σ v_i L_i differs from Horner of the interpolant (n={}, tau={})", n, tn));
+            }
+            let desc = json!({"kernel": "barycentric", "n": n, "evaluations": en, "tau": tn, "tau_value": hex(&tau), "evaluation_values": hexv(ev)});
+            match guard(|| k::barycentric(n, ev, &tau)) {
+                Ok(Ok(r)) => {
+                    acc.case("barycentric", &format!("{}/{}", shape, if ev.len() < n { "short" } else { "full" }), if expect != zero() { Some(fnv(desc.to_string().as_bytes())) } else { None });
+                    if r != expect {
+                        let mut d = desc.clone();
+                        d["real"] = json!(hex(&r));
+                        d["expected"] = json!(hex(&expect));
+                        let sig = if on_domain { "barycentric/domain-point".to_string() } else { "barycentric/wrong-value/outside-domain".to_string() };
+                        acc.fail("closed", &sig, format!("barycentric(n={}, evals={}, tau={}) = {}, definition Σ v_i L_i(tau) = {}", n, en, tn, hex(&r), hex(&expect)), d);
+                    } else if on_domain {
+                        acc.outcome("barycentric/domain-point:agrees(value is zero there)");
+                    }
+                }
+                Ok(Err(e)) => acc.fail("closed", "barycentric/error", format!("{:?}", e), desc.clone()),
+                Err(p) => acc.fail("closed", &format!("barycentric/panic/{}", place), p, desc.clone()),
+            }
+        }
+        // --- fused (L_1, PI) evaluation
+        let mut subsets: Vec<Vec<usize>> = vec![vec![], vec![0], vec![n - 1], (0..n).collect()];
+        if n >= 2 {
+            subsets.push(vec![1]);
+            subsets.push(vec![0, 1]);
+        }
+        if n >= 4 {
+            subsets.push(vec![0, n / 2, n - 1]);
+            subsets.push(vec![n / 2 + 1, 2]);
+        }
+        let mut seen: Vec<Vec<usize>> = vec![];
+        for rows in subsets {
+            if seen.contains(&rows) {
+                continue;
+            }
+            seen.push(rows.clone());
+            let w = m4::root_of_unity(n);
+            let roots: Vec<Fe> = rows.iter().map(|r| m4::inv(m4::pow_u64(w, *r as u64))).collect();
+            let base: Vec<Fe> = rows.iter().map(|r| rv[*r]).collect();
+            let mut variants: Vec<(&str, Vec<Fe>)> = vec![("rho", base.clone())];
+            if !rows.is_empty() {
+                let mut z0 = base.clone();
+                z0[0] = zero();
+                variants.push(("first-zero", z0));
+                variants.push(("all-zero", vec![zero(); rows.len()]));
+                variants.push(("ones", vec![one(); rows.len()]));
+            }
+            for (vn, vals) in variants {
+                let e_l1 = lag[0];
+                let e_pi = m4::eval_sparse(n, &rows, &vals, tau);
+                let desc = json!({"kernel": "lagrange_and_public_inputs", "n": n, "pi_rows": rows, "pi_values": vn, "pi_value_list": hexv(&vals), "tau": tn, "tau_value": hex(&tau)});
+                let rows_class = if rows.is_empty() { "no-pi".to_string() } else if rows.len() == n { "all-rows".to_string() } else { format!("{}-rows", rows.len()) };
+                match guard(|| k::lagrange_and_public_inputs(n, &roots, &vals, &tau)) {
+                    Err(p) => {
+                        acc.case("lagrange_and_public_inputs", &format!("{}/{}", shape, rows_class), None);
+                        acc.fail("closed", &format!("lagrange_pi/panic/{}", place), p, desc);
+                    }
+                    Ok(Err(e)) => {
+                        acc.case("lagrange_and_public_inputs", &format!("{}/{}", shape, rows_class), None);
+                        if on_domain {
+                            acc.outcome("lagrange_pi/domain-point:Err(as documented)");
+                        } else {
+                            acc.fail("closed", "lagrange_pi/outside-domain/error", format!("Err({:?}) for a point outside the domain", e), desc);
+                        }
+                    }
+                    Ok(Ok((l1, pi))) => {
+                        acc.case("lagrange_and_public_inputs", &format!("{}/{}", shape, rows_class), Some(fnv(desc.to_string().as_bytes())));
+                        let ok = l1 == e_l1 && pi == e_pi;
+                        if on_domain && ok {
+                            acc.outcome("lagrange_pi/domain-point:Ok(correct values)");
+                        }
+                        if !ok {
+                            let mut d = desc;
+                            d["real"] = json!([hex(&l1), hex(&pi)]);
+                            d["expected"] = json!([hex(&e_l1), hex(&e_pi)]);
+                            acc.fail("closed", &format!("lagrange_pi/wrong-value/{}", place), format!("(L_1, PI)(tau={}) differs from the definition (n={}, rows={:?})", tn, n, rows), d);
+                        }
+                    }
+                }
+            }
+        }
+    }
+    acc
+}
+
+fn coset_vanishing_case(acc: &mut Acc, dom: usize, deg: u64) {
+    let shape = format!("D=2^{}/deg={}", dom.trailing_zeros(), if deg.is_power_of_two() { format!("2^{}", deg.trailing_zeros()) } else { deg.to_string() });
+    let desc = json!({"kernel": "vanishing_over_coset", "domain": dom, "degree": deg});
+    match guard(|| k::vanishing_over_coset(dom, deg)) {
+        Ok(Ok(r)) => {
+            acc.case("vanishing_over_coset", &shape, Some(fnv(desc.to_string().as_bytes())));
+            let g = m4::coset_gen();
+            let exp: Vec<Fe> = m4::domain_elements(dom).iter().map(|x| m4::pow_u64(g * *x, deg) - one()).collect();
+            if r != exp {
+                let mut d = desc;
+                d["first_difference"] = first_diff(&r, &exp);
+                acc.fail("closed", "vanishing_over_coset/wrong-value", format!("vanishing_over_coset({}, {}) differs from (g·ω^i)^deg − 1", dom, deg), d);
+            }
+        }
+        Ok(Err(e)) => acc.fail("closed", "vanishing_over_coset/error", format!("{:?}", e), desc),
+        Err(p) => acc.fail("closed", "vanishing_over_coset/panic", p, desc),
+    }
+}
+
+pub fn section_closed(tier: Tier, acc: &mut Acc) {
+    let sizes: Vec<usize> = (0..=6).map(|k| 1usize << k).collect();
+    for p in par_map(&sizes, |&n| closed_for_size(n)) {
+        match p {
+            Ok(a) => acc.merge(a),
+            Err(e) => acc.machinery.push(format!("closed-form worker panicked: {}", e)),
+        }
+    }
+    // vanishing_eval on big domains
+    let rho = rho_scalar();
+    for lk in 7..=14u32 {
+        let n = 1usize << lk;
+        let w = m4::root_of_unity(n);
+        for (tn, tau) in [("0", zero()), ("1", one()), ("-1", neg1()), ("rho", rho), ("omega^3", m4::pow_u64(w, 3)), ("g", m4::coset_gen())] {
+            let e = m4::vanishing(n, tau);
+            let desc = json!({"kernel": "vanishing_eval", "n": n, "tau": tn});
+            match guard(|| k::vanishing_eval(n, &tau)) {
+                Ok(Ok(r)) => {
+                    acc.case("vanishing_eval", &format!("n=2^{}/{}", lk, if e == zero() { "domain-point" } else { "outside-domain" }), if e != zero() { Some(fnv(desc.to_string().as_bytes())) } else { None });
+                    if r != e {
+                        acc.fail("closed", "vanishing_eval/wrong-value", format!("vanishing_eval(n={}, tau={})", n, tn), desc);
+                    }
+                }
+                Ok(Err(e)) => acc.fail("closed", "vanishing_eval/error", format!("{:?}", e), desc),
+                Err(p) => acc.fail("closed", "vanishing_eval/panic", p, desc),
+            }
+        }
+    }
+    // X^deg - 1 over the coset of a larger domain
+    let max_log = tier.pick(9u32, 11u32);
+    let mut combos: Vec<(usize, u64)> = vec![];
+    for lk in 0..=max_log {
+        let n = 1usize << lk;
+        combos.push((8 * n, n as u64));
+        combos.push((4 * n, n as u64));
+        combos.push((2 * n, n as u64));
+    }
+    combos.extend([(8, 0), (16, 5), (16, 15), (64, 33), (2, 1)]);
+    let parts = par_map(&combos, |&(d, g)| {
+        let mut a = Acc::default();
+        coset_vanishing_case(&mut a, d, g);
+        a
+    });
+    for p in parts {
+        match p {
+            Ok(a) => acc.merge(a),
+            Err(e) => acc.machinery.push(format!("coset vanishing worker panicked: {}", e)),
+        }
+    }
+    // degree >= domain size is refused by an assertion: outside the statement, informational
+    match guard(|| k::vanishing_over_coset(8, 8)) {
+        Err(_) => acc.outcome("info:vanishing_over_coset(degree>=domain):panics(assert)"),
+        Ok(_) => acc.outcome("info:vanishing_over_coset(degree>=domain):returns"),
+    }
+    // big domains inside real multi-thread pools (par_iter paths), vs the M4 closed form
+    // (the closed form was cross-checked against the product definition for n <= 64 above)
+    let big_sizes: Vec<usize> = tier.pick(vec![1 << 12], vec![1 << 10, 1 << 12, 1 << 13]);
+    for n in big_sizes {
+        let w = m4::root_of_unity(n);
+        let mut r = Rho::new(seed(), 1980 + n as u64);
+        let evals: Vec<Fe> = (0..n).map(|i| if i % 5 == 4 { zero() } else { r.next_fe() }).collect();
+        let idx: Vec<usize> = (0..n).collect();
+        for (tn, tau) in [("rho", rho), ("0", zero()), ("omega^5", m4::pow_u64(w, 5))] {
+            let on_domain = m4::vanishing(n, tau) == zero();
+            let place = if on_domain { "domain-point" } else { "outside-domain" };
+            let lag: Vec<Fe> = par_map(&idx.chunks(n / 64).map(|c| c.to_vec()).collect::<Vec<_>>(), |is| is.iter().map(|i| m4::lagrange_closed(n, *i, tau)).collect::<Vec<Fe>>())
+                .into_iter()
+                .flat_map(|x| x.expect("closed form"))
+                .collect();
+            let mut bexp = zero();
+            for (v, l) in evals.iter().zip(&lag) {
+                bexp = bexp + *v * *l;
+            }
+            for t in [1usize, 4, 17] {
+                let pool = rayon::ThreadPoolBuilder::new().num_threads(t).build().expect("pool");
+                let (rl, rb) = pool.install(|| (guard(|| k::lagrange_all(n, tau)), guard(|| k::barycentric(n, &evals, &tau))));
+                let shape = format!("n=2^{}/{}/threads={}", n.trailing_zeros(), place, t);
+                let desc = json!({"n": n, "tau": tn, "threads": t, "evaluations": "rho with every 5th zero"});
+                match rl {
+                    Ok(Ok(r)) => {
+                        acc.case("lagrange_all", &shape, Some(fnv(format!("lag|{}", desc).as_bytes())));
+                        if r != lag {
+                            let mut d = desc.clone();
+                            d["first_difference"] = first_diff(&r, &lag);
+                            acc.fail("closed", &format!("lagrange_all/wrong-value/{}", place), format!("lagrange_all(n={}, tau={}, {} threads)", n, tn, t), d);
+                        }
+                    }
+                    Ok(Err(e)) => acc.fail("closed", "lagrange_all/error", format!("{:?}", e), desc.clone()),
+                    Err(p) => acc.fail("closed", &format!("lagrange_all/panic/{}", place), p, desc.clone()),
+                }
+                match rb {
+                    Ok(Ok(r)) => {
+                        acc.case("barycentric", &shape, Some(fnv(format!("bar|{}", desc).as_bytes())));
+                        if r != bexp {
+                            let mut d = desc.clone();
+                            d["real"] = json!(hex(&r));
+                            d["expected"] = json!(hex(&bexp));
+                            let sig = if on_domain { "barycentric/domain-point".to_string() } else { "barycentric/wrong-value/outside-domain".to_string() };
+                            acc.fail("closed", &sig, format!("barycentric(n={}, tau={}, {} threads)", n, tn, t), d);
+                        }
+                    }
+                    Ok(Err(e)) => acc.fail("closed", "barycentric/error", format!("{:?}", e), desc.clone()),
+                    Err(p) => acc.fail("closed", &format!("barycentric/panic/{}", place), p, desc.clone()),
+                }
+            }
+        }
+    }
+}
+
+// ---------------------------------------------------------------------------
+// driver
+// ---------------------------------------------------------------------------
+
+pub const KERNELS: [&str; 29] = [
+    "fft", "ifft", "coset_fft", "coset_ifft", "domain", "elements", "poly_add", "poly_add_assign", "poly_add_assign_scaled", "poly_sub",
+    "poly_sub_assign", "poly_neg", "poly_mul", "poly_scale", "poly_add_scalar", "poly_sub_scalar", "poly_eval", "poly_degree", "poly_ruffini",
+    "batch_inversion", "lagrange_all", "vanishing_eval", "vanishing_over_coset", "barycentric", "lagrange_and_public_inputs",
+    "fft-roundtrip", "ifft-roundtrip", "coset_fft-roundtrip", "coset_ifft-roundtrip",
+];
+
+pub fn main(tier: Tier, replay: Option<Value>) -> i32 {
+    let mut run = Run::new("C19", tier, "model_checking");
+    run.rule = "cases = (kernel, input) pairs executed on the real crate-private kernels through verif::kernels and compared with the naive reference M4 (Horner DFT / definition-based interpolation, schoolbook polynomial arithmetic, per-element inversion, product-definition Lagrange basis); FFT cases = domain size x input length {0,1,n/2,n-1,n,n+1,2n} x vector family x kind {fft,ifft,coset_fft,coset_ifft} x real rayon pool of k threads (quick: k in {1,2,3,4,5,8,16,17}; thorough: every k in 1..=17), each also fed through the inverse kernel; states = distinct (kernel, size/shape) configurations; non-trivial = distinct cases whose output is not constant/zero".into();
+    let (only, target_sig) = match &replay {
+        Some(r) => {
+            run.set_replay_mode();
+            (r["case"]["section"].as_str().map(|s| s.to_string()), r["signature"].as_str().map(|s| s.to_string()))
+        }
+        None => (None, None),
+    };
+    let want = |s: &str| only.as_deref().map_or(true, |o| o == s);
+    let mut acc = Acc::default();
+    let mut fft_stats = None;
+    if want("fft") {
+        fft_stats = Some(section_fft(tier, &mut acc));
+        eprintln!("[C19] fft section done at {:.1}s", run.elapsed());
+    }
+    if want("domain") {
+        section_domain(&mut acc);
+    }
+    if want("poly") {
+        section_poly(&mut acc);
+        eprintln!("[C19] poly section done at {:.1}s", run.elapsed());
+    }
+    if want("batch_inv") {
+        section_batch_inv(&mut acc);
+    }
+    if want("closed") {
+        section_closed(tier, &mut acc);
+        eprintln!("[C19] closed-form section done at {:.1}s", run.elapsed());
+    }
+
+    run.states = acc.shapes.len() as u64;
+    run.transitions = acc.cases;
+    run.traces_validated = acc.cases;
+    run.evaluations = acc.cases;
+    for h in &acc.hashes {
+        run.nontrivial(*h);
+    }
+    for (k, v) in &acc.outcomes {
+        run.outcome_n(k, *v);
+    }
+    for s in &acc.samples {
+        run.sample(s.clone());
+    }
+    for m in &acc.machinery {
+        run.machinery(m.clone());
+    }
+    if replay.is_some() {
+        let mut hit = false;
+        for f in &acc.fails {
+            if Some(&f.sig) == target_sig.as_ref() {
+                hit = true;
+                println!("replay: signature {} reproduced: {}", f.sig, f.what);
+                run.violation(&f.sig, &f.what, f.case.clone());
+            }
+        }
+        if !hit {
+            println!("replay: signature {:?} not reproduced", target_sig);
+        }
+        return run.finish();
+    }
+    for f in &acc.fails {
+        run.violation(&f.sig, &f.what, f.case.clone());
+    }
+    // vacuity gates
+    if let Some(st) = &fft_stats {
+        run.gate("sizes >= 2^12 ran inside pools of >= 4 threads", st.big_par_runs > 0);
+        run.gate("the 2^12 rho vector was compared with the full O(n^2) definition", st.full_definition_big.contains(&(1 << 12)));
+        run.bound("fft_domain_sizes_log2", json!(st.sizes.iter().map(|n| n.trailing_zeros()).collect::<Vec<_>>()));
+        run.bound("fft_full_definition_up_to_log2", json!(10));
+        run.bound("fft_big_sizes_full_definition_for_rho_vector_log2", json!(st.full_definition_big.iter().map(|n| n.trailing_zeros()).collect::<Vec<_>>()));
+        run.extra.insert("fft_runs_n_ge_2^12_threads_ge_4".into(), json!(st.big_par_runs));
+    }
+    for kn in KERNELS {
+        run.gate(&format!(">=1 case for kernel {}", kn), acc.kernels.get(kn).copied().unwrap_or(0) > 0);
+    }
+    if let Some(st) = &fft_stats {
+        run.bound("thread_counts", json!(st.threads));
+    }
+    run.bound(
+        "fft_vector_families",
+        json!(if tier == Tier::Quick { "zeros, e_0, e_1, e_last, ones, trailing zeros, rho for n <= 2^10; e_last, trailing zeros, rho (and the empty vector) for 2^12, 2^13" } else { "zeros, e_0, e_1, e_last, ones, trailing zeros, rho (and the empty vector) for every size" }),
+    );
+    run.bound("poly_small_vectors", json!(85));
+    run.bound("batch_inversion_small_vectors", json!(341));
+    run.bound("closed_form_sizes_log2", json!([0, 1, 2, 3, 4, 5, 6]));
+    run.extra.insert("cases_per_kernel".into(), json!(acc.kernels));
+    run.assumptions = vec![
+        "M4 (Horner DFT, product-definition Lagrange basis, schoolbook arithmetic) is the statement of the definitions; dusk_bls12_381 field arithmetic, ROOT_OF_UNITY and GENERATOR are the trusted base".into(),
+        "for domain sizes above 2^10 the reference is M4's own recursive radix-2 transform, validated against the Horner definition on every case <= 2^10, at 64 spread indices on every big case and at every index for the rho vector of the listed big sizes".into(),
+        "'direct evaluation' of a coefficient vector longer than the domain means evaluating the full polynomial at the domain points; for ifft the literal inverse-DFT sum over all supplied evaluations".into(),
+        "thread counts are real rayon pools; interleavings inside a pool are whatever the OS scheduler produced (E5 covers schedules)".into(),
+    ];
+    run.finish()
 }
